@@ -71,10 +71,15 @@ fn worker(
     receiver: Receiver<BoxedDispatchable>,
     guard: CounterGuard,
     timeout: Duration,
+    first: BoxedDispatchable,
 ) -> impl FnOnce() {
     move || {
         // The slot was reserved by the dispatcher; the worker only releases it.
         let _guard = guard;
+        // The job the worker was started for travels with it: handing it over
+        // through the rendezvous channel could block the dispatcher for ever when
+        // the new worker's first receive times out before the send.
+        first.run();
         while let Ok(f) = receiver.recv_timeout(timeout) {
             f.run()
         }
@@ -135,8 +140,8 @@ impl AsyncifyPool {
                             self.receiver.clone(),
                             guard,
                             self.recv_timeout,
+                            f,
                         ));
-                        self.sender.send(f).expect("the channel should not be full");
                         Ok(())
                     }
                 }
